@@ -3,7 +3,7 @@ from __future__ import annotations
 from typing import List
 
 from antlr4 import InputStream, CommonTokenStream, ParseTreeWalker, BailErrorStrategy, \
-    PredictionMode
+    PredictionMode, Token
 from typing import Optional
 
 from .base_antlr_importer import BaseANTLRListenerImporter
@@ -69,6 +69,10 @@ class KernSpineImporter(SpineImporter):
         walker = ParseTreeWalker()
         listener = KernSpineListener()
         walker.walk(listener, tree)
+        # The start rule does not require EOF: reject a token that was only partly recognized.
+        # Barlines are read leniently on purpose (e.g. '=:|!-' with the hidden mark after the bar type).
+        if stream.LA(1) != Token.EOF and not isinstance(listener.token, BarToken):
+            raise Exception(f'Unexpected text after "{tree.getText()}" in the token "{encoding}"')
         if self.error_listener.getNumberErrorsFound() > 0:
             raise Exception(self.error_listener.errors)
         return listener.token
